@@ -43,6 +43,7 @@ check_formula(const Plan& p, const Problem& pr, const RunCfg& rcg, const RunResu
           std::copy(lam.begin(), lam.end(), cur->begin_all());
           shared_ptr<target_type> pg(pr.start_image->get_empty_copy());
           QuadraticPrior<float> prior(false, (float)rcg.beta);
+          configure_prior(prior, pr, rcg);
           prior.set_up(cur);
           prior.compute_gradient(*pg, *cur);
           std::vector<double> pgv(pg->begin_all(), pg->end_all());
